@@ -401,6 +401,8 @@ class Engine:
         if isinstance(recv, VRef) and recv.cls == 're.Match' and attr in ('group', 'end', 'start'):
             st.may_raise(recv.t == 0, 'AttributeError', 'None.%s' % attr)
             return VFn('re_' + attr, m=recv)
+        if isinstance(recv, VPy) and type(recv.obj).__name__ == 'Pattern' and attr == 'match':
+            return VFn('re_match', pat=recv)          # a live compiled pattern (module-level constant)
         if isinstance(recv, VPy):
             try:
                 o = getattr(recv.obj, attr)
@@ -439,14 +441,61 @@ class Engine:
         st.assume(z3.Implies(m != 0, z3.And(n >= 0, pos >= 0, pos + n <= z3.Length(s.t))))
         ref = VRef(m, 're.Match')
         ref.match_info = (s.t, pos, n)
+        ref.groups = {}
+        if isinstance(pat, VPy):
+            # a live pattern: when it is a plain sequence of capturing groups (pv/rx.top_groups, the same structure
+            # the 're:*:shape' obligations report) the groups are contiguous slices of the match
+            from pv import rx
+            try:
+                groups, _ = rx.top_groups(pat.obj)
+            except rx.Unsupported:
+                groups = []
+            off = pos
+            lens = []
+            for gi, _r, *_ in groups:
+                ln = z3.Int(fresh_name('glen%d' % gi))
+                ref.groups[gi] = (off, ln)
+                lens.append(ln)
+                off = off + ln
+            if lens:
+                st.assume(z3.Implies(m != 0, z3.And([l_ >= 0 for l_ in lens] + [z3.Sum(lens) == n])))
+            # facts about this pattern's matches that the contract imports from RegLan obligations / states as assumptions
+            name = next((k for k, v in vars(self.live_mod).items() if v is pat.obj), None)
+            for cl in getattr(self.ctr, 'match_facts', {}).get(name, []):
+                env = {'s': s, 'pos': VInt(pos), 'end': VInt(pos + n), 'matched': VBool(m != 0)}
+                for gi, (o_, l_) in ref.groups.items():
+                    env['g%d' % gi] = VStr(z3.SubString(s.t, o_, l_))
+                t, new = self.spec_eval(st, cl, extra_env=env)
+                for f in new:
+                    st.assume(f)
+                st.assume(t)
         return ref
 
     def re_group(self, st, m, args):
         info = getattr(m, 'match_info', None)
-        if info is None or len(args) != 1 or not z3.is_int_value(self.as_int(args[0])) or self.as_int(args[0]).as_long() != 0:
+        if info is None or len(args) > 1 or (args and not z3.is_int_value(self.as_int(args[0]))):
             raise OutOfSubset('match.group of this shape')
         s, pos, n = info
-        return VStr(z3.SubString(s, pos, n))
+        k = self.as_int(args[0]).as_long() if args else 0
+        if k == 0:
+            return VStr(z3.SubString(s, pos, n))
+        g = getattr(m, 'groups', {}).get(k)
+        if g is None:
+            raise OutOfSubset('match.group(%d): the pattern is not a plain sequence of capturing groups' % k)
+        return VStr(z3.SubString(s, g[0], g[1]))
+
+    def re_pos(self, st, m, args, which):
+        info = getattr(m, 'match_info', None)
+        if info is None or len(args) > 1 or (args and not z3.is_int_value(self.as_int(args[0]))):
+            raise OutOfSubset('match.%s of this shape' % which)
+        s, pos, n = info
+        k = self.as_int(args[0]).as_long() if args else 0
+        if k == 0:
+            return VInt(pos if which == 'start' else pos + n)
+        g = getattr(m, 'groups', {}).get(k)
+        if g is None:
+            raise OutOfSubset('match.%s(%d)' % (which, k))
+        return VInt(g[0] if which == 'start' else g[0] + g[1])
 
     def is_leaf(self, t):
         return z3.Function('$isleaf', I, B)(t)
